@@ -1,7 +1,7 @@
 (* Proofs/PatternNumbers.v -- C10: the texts of numeric literals.
    Decimal digits <-> Decimal.uint, int(text), str(int).                      *)
 From Coq Require Import NArith ZArith List Bool Lia Decimal DecimalN DecimalPos DecimalFacts.
-From V Require Import Model.PatternSyntax.
+From V Require Import Model.PatternSyntax Proofs.PatternR.
 Import ListNotations.
 Open Scope N_scope.
 
